@@ -194,6 +194,13 @@ Ltac fin :=
   end;
   cbn [d_i d_st]; unfold W16, W32, W64 in *; repeat split; try lia; try assumption.
 Ltac finish_when i size := fin.
+(* the "empty blob: go straight to End" test after a field read *)
+Ltac split_empty_blob :=
+  try match goal with
+  | |- context [if (?a =? ?b) && (?c =? ?d) then _ else _] =>
+      let E1 := fresh "E" in let E2 := fresh "E" in
+      destruct (a =? b) eqn:E1; destruct (c =? d) eqn:E2; cbn [andb]; unfold d_next
+  end.
 
 Lemma setup1_step s b : inv_s1 s -> b < 256 -> exists s', setup1_byte s b = Ok s' /\ inv_s1 s'.
 Proof.
@@ -214,7 +221,7 @@ Proof.
   destruct (st =? 8) eqn:E8. { apply N.eqb_eq in E8; subst st. loose_field i 8 b sl 9 2 W16. s1_unf. finish_when i 2. }
   destruct (st =? 9) eqn:E9. { apply N.eqb_eq in E9; subst st. eexists; split; [reflexivity|]. s1_unf. finish_when i 4. }
   destruct (st =? 10) eqn:E10. { apply N.eqb_eq in E10; subst st. loose_field i 10 b cp 11 4 W32. s1_unf. finish_when i 4. }
-  destruct (st =? 11) eqn:E11. { apply N.eqb_eq in E11; subst st. loose_field i 11 b bc 12 2 W16. s1_unf. finish_when i 2. }
+  destruct (st =? 11) eqn:E11. { apply N.eqb_eq in E11; subst st. loose_field i 11 b bc 12 2 W16. s1_unf. split_empty_blob; s1_unf; finish_when i 2. }
   destruct (st =? 12) eqn:E12. { apply N.eqb_eq in E12; subst st. eexists; split; [reflexivity|]. s1_unf. finish_when i sl. }
   eexists; split; [reflexivity|]. s1_unf. repeat split; assumption.
 Qed.
@@ -389,7 +396,7 @@ Proof.
   destruct (st =? 4) eqn:E4. { apply N.eqb_eq in E4; subst st. loose_field i 4 b ch 5 4 W32. s2_unf. fin2. }
   destruct (st =? 5) eqn:E5. { apply N.eqb_eq in E5; subst st. loose_field i 5 b so 6 2 W16. s2_unf. fin2. }
   destruct (st =? 6) eqn:E6. { apply N.eqb_eq in E6; subst st. loose_field i 6 b sl 7 2 W16. s2_unf. fin2. }
-  destruct (st =? 7) eqn:E7. { apply N.eqb_eq in E7; subst st. exact_field i 7 b pv 8. s2_unf. fin2. }
+  destruct (st =? 7) eqn:E7. { apply N.eqb_eq in E7; subst st. exact_field i 7 b pv 8. s2_unf. split_empty_blob; s2_unf; fin2. }
   destruct (st =? 8) eqn:E8. { apply N.eqb_eq in E8; subst st. eexists; split; [reflexivity|]. s2_unf. fin2. }
   eexists; split; [reflexivity|]. s2_unf.
   apply N.eqb_neq in E0, E1, E2, E3, E4, E5, E6, E7. repeat split; try assumption; lia.
